@@ -54,7 +54,7 @@ def _monotonic_job(k):
 def run(tier, only=None):
     R = Run("C07", tier, "model_checking")
     depth = 2 if tier == "quick" else 3
-    behs, types = lawcheck.behaviours(R, ["Mirror", "Translate", "ScaleLen", "Permute", "Reorder"], lawcheck.ALL_BASE, depth, factors="{<<2, 1>>}", must_contain={"Mirror"})
+    behs, types = lawcheck.behaviours(R, ["Mirror", "Translate", "ScaleLen", "Permute", "Reorder"], lawcheck.ALL_BASE, depth, factors="{<<2, 1>>}", must_contain={"Mirror"}, keep=300 if tier == "quick" else 3000)
     lawcheck.replay_all(R, "C07", behs, limit=300 if tier == "quick" else 3000)
     jobs = mirror_as.jobs(tier)
     for r in check_exc(pmap(mirror_as.run_job, jobs)):
